@@ -18,6 +18,8 @@ pub struct Progress {
     pub busy: Vec<AtomicBool>,
     pub case: Vec<AtomicU64>,
     pub tick: Vec<AtomicU64>,
+    /// kernel thread id of the thread working in the slot (for the stuck-or-starved decision)
+    pub tid: Vec<std::sync::atomic::AtomicI32>,
 }
 
 impl Progress {
@@ -26,10 +28,12 @@ impl Progress {
             busy: (0..MAX_SLOTS).map(|_| AtomicBool::new(false)).collect(),
             case: (0..MAX_SLOTS).map(|_| AtomicU64::new(0)).collect(),
             tick: (0..MAX_SLOTS).map(|_| AtomicU64::new(0)).collect(),
+            tid: (0..MAX_SLOTS).map(|_| std::sync::atomic::AtomicI32::new(0)).collect(),
         })
     }
     #[inline]
     pub fn begin(&self, slot: usize, case: u64) {
+        self.tid[slot].store(my_tid(), Ordering::Relaxed);
         self.case[slot].store(case, Ordering::Relaxed);
         self.tick[slot].fetch_add(1, Ordering::Relaxed);
         self.busy[slot].store(true, Ordering::Release);
@@ -116,13 +120,90 @@ pub fn spawn_watchdog<F: Fn(usize, u64) + Send + 'static>(p: Arc<Progress>, limi
                 if last[slot].0 != t {
                     last[slot] = (t, Instant::now());
                 } else if last[slot].1.elapsed() > limit {
-                    on_hang(slot, p.case[slot].load(Ordering::Relaxed));
+                    let tid = p.tid[slot].load(Ordering::Relaxed);
+                    if confirm_stuck(tid, limit, &|| p.busy[slot].load(Ordering::Acquire) && p.tick[slot].load(Ordering::Relaxed) == t) {
+                        on_hang(slot, p.case[slot].load(Ordering::Relaxed));
+                    }
                     last[slot] = (u64::MAX, Instant::now());
                 }
             }
         }
     });
     stop
+}
+
+thread_local! {
+    static MY_TID: std::cell::Cell<i32> = const { std::cell::Cell::new(0) };
+}
+
+/// kernel thread id of the calling thread (cached)
+#[inline]
+pub fn my_tid() -> i32 {
+    MY_TID.with(|c| {
+        if c.get() == 0 {
+            c.set(unsafe { libc::syscall(libc::SYS_gettid) } as i32);
+        }
+        c.get()
+    })
+}
+
+/// (state, user+system CPU time in seconds) of a thread of this process or of another process' main thread
+pub fn task_stat(pid: Option<i32>, tid: i32) -> Option<(char, f64)> {
+    let path = match pid {
+        Some(p) => format!("/proc/{}/stat", p),
+        None => format!("/proc/self/task/{}/stat", tid),
+    };
+    let txt = std::fs::read_to_string(path).ok()?;
+    // the command name may contain spaces: fields start after the last ')'
+    let rest = &txt[txt.rfind(')')? + 1..];
+    let f: Vec<&str> = rest.split_whitespace().collect();
+    let state = f.first()?.chars().next()?;
+    let (ut, st): (f64, f64) = (f.get(11)?.parse().ok()?, f.get(12)?.parse().ok()?);
+    let hz = unsafe { libc::sysconf(libc::_SC_CLK_TCK) }.max(1) as f64;
+    Some((state, (ut + st) / hz))
+}
+
+/// A slot has shown no progress for `limit` of wall-clock time. On a loaded machine that can also mean
+/// that the thread simply did not get the CPU, so before a hang is reported the thread itself is watched:
+/// it is stuck once it has burnt a further `limit` of CPU time inside the same call (endless loop), or has
+/// been asleep (blocked on a lock that is never released) for a further `limit` without running at all.
+/// Returns false as soon as `still()` says the slot moved on.
+pub fn confirm_stuck(tid: i32, limit: Duration, still: &dyn Fn() -> bool) -> bool {
+    let (_, cpu0) = match task_stat(None, tid) {
+        Some(x) => x,
+        None => return still(), // no /proc: the wall-clock verdict stands
+    };
+    let t0 = Instant::now();
+    let mut asleep_since: Option<(Instant, f64)> = None;
+    loop {
+        std::thread::sleep(Duration::from_millis(250));
+        if !still() {
+            return false;
+        }
+        match task_stat(None, tid) {
+            None => return still(),
+            Some((state, cpu)) => {
+                if cpu - cpu0 >= limit.as_secs_f64() {
+                    return true;
+                }
+                if state == 'S' || state == 'D' {
+                    match asleep_since {
+                        Some((since, c)) if cpu - c < 0.05 => {
+                            if since.elapsed() >= limit {
+                                return true;
+                            }
+                        },
+                        _ => asleep_since = Some((Instant::now(), cpu)),
+                    }
+                } else {
+                    asleep_since = None;
+                }
+            },
+        }
+        if t0.elapsed() > limit * 60 {
+            return true;
+        }
+    }
 }
 
 /// Resident set size in MiB (Linux)
@@ -183,6 +264,7 @@ impl Rng {
 struct CwSlot {
     busy: AtomicBool,
     tick: AtomicU64,
+    tid: std::sync::atomic::AtomicI32,
     desc: std::sync::Mutex<String>,
 }
 
@@ -193,7 +275,7 @@ thread_local! {
 }
 
 fn cw_slots() -> &'static Vec<CwSlot> {
-    CW.get_or_init(|| (0..MAX_SLOTS).map(|_| CwSlot { busy: AtomicBool::new(false), tick: AtomicU64::new(0), desc: std::sync::Mutex::new(String::new()) }).collect())
+    CW.get_or_init(|| (0..MAX_SLOTS).map(|_| CwSlot { busy: AtomicBool::new(false), tick: AtomicU64::new(0), tid: std::sync::atomic::AtomicI32::new(0), desc: std::sync::Mutex::new(String::new()) }).collect())
 }
 
 struct CwBusy(&'static CwSlot);
@@ -218,6 +300,7 @@ pub fn watched<T>(desc: impl FnOnce(&mut String), f: impl FnOnce() -> T) -> T {
         d.clear();
         desc(&mut d);
     }
+    s.tid.store(my_tid(), Ordering::Relaxed);
     s.tick.fetch_add(1, Ordering::Relaxed);
     s.busy.store(true, Ordering::Release);
     let _g = CwBusy(s);
@@ -242,8 +325,10 @@ pub fn start_call_watchdog<F: Fn(String) + Send + 'static>(limit: Duration, on_h
                 if last[i].0 != t {
                     last[i] = (t, Instant::now());
                 } else if last[i].1.elapsed() > limit {
-                    let d = s.desc.lock().unwrap_or_else(|e| e.into_inner()).clone();
-                    on_hang(d);
+                    if confirm_stuck(s.tid.load(Ordering::Relaxed), limit, &|| s.busy.load(Ordering::Acquire) && s.tick.load(Ordering::Relaxed) == t) {
+                        let d = s.desc.lock().unwrap_or_else(|e| e.into_inner()).clone();
+                        on_hang(d);
+                    }
                     last[i] = (u64::MAX, Instant::now());
                 }
             }
@@ -261,6 +346,7 @@ pub fn start_call_watchdog<F: Fn(String) + Send + 'static>(limit: Duration, on_h
 struct ItemSlot {
     busy: AtomicBool,
     tick: AtomicU64,
+    tid: std::sync::atomic::AtomicI32,
     idx: AtomicU64,
     loc: std::sync::Mutex<Option<&'static std::panic::Location<'static>>>,
 }
@@ -283,7 +369,7 @@ fn item_slots() -> &'static Vec<ItemSlot> {
     ITEM_SLOTS.get_or_init(|| {
         let mut free = ITEM_FREE.lock().unwrap();
         *free = (0..1024).rev().collect();
-        (0..1024).map(|_| ItemSlot { busy: AtomicBool::new(false), tick: AtomicU64::new(0), idx: AtomicU64::new(0), loc: std::sync::Mutex::new(None) }).collect()
+        (0..1024).map(|_| ItemSlot { busy: AtomicBool::new(false), tick: AtomicU64::new(0), tid: std::sync::atomic::AtomicI32::new(0), idx: AtomicU64::new(0), loc: std::sync::Mutex::new(None) }).collect()
     })
 }
 
@@ -314,6 +400,10 @@ impl ItemGuard {
                         if last[i].0 != t {
                             last[i] = (t, Instant::now());
                         } else if last[i].1.elapsed() > limit {
+                            if !confirm_stuck(s.tid.load(Ordering::Relaxed), limit, &|| s.busy.load(Ordering::Acquire) && s.tick.load(Ordering::Relaxed) == t) {
+                                last[i] = (u64::MAX, Instant::now());
+                                continue;
+                            }
                             let loc = s.loc.lock().unwrap_or_else(|e| e.into_inner()).map(|l| format!("{}:{}", l.file(), l.line())).unwrap_or_default();
                             let msg = format!("work item {} of the loop at {} has not finished after {} s", s.idx.load(Ordering::Relaxed), loc, limit.as_secs());
                             match STALL_HANDLER.get() {
@@ -335,6 +425,7 @@ impl ItemGuard {
     fn begin(&self, idx: u64) {
         if let Some(i) = self.slot {
             let s = &item_slots()[i];
+            s.tid.store(my_tid(), Ordering::Relaxed);
             s.idx.store(idx, Ordering::Relaxed);
             s.tick.fetch_add(1, Ordering::Relaxed);
             s.busy.store(true, Ordering::Release);
